@@ -116,6 +116,56 @@ func init() {
 		o.Lean.WriteString("/-- the loop-exit test of `inputs` (acc = running total after adding the UTXO) -/\n")
 		o.Lean.WriteString("def stopCond (acc target : Nat) : Bool := " + brk + "\n\n")
 
+		// outputs: the supply cap on a proposal amount / the running total, and that it is tested after the addition
+		capc, capOK, capAfter := "false", false, false
+		if fd := FindFunc(f, "Executor", "outputs"); fd != nil {
+			Walk(fd.Body, func(n ast.Node) bool {
+				rs, ok := n.(*ast.RangeStmt)
+				if !ok {
+					return true
+				}
+				added := false
+				for _, st := range rs.Body.List {
+					if as, ok := st.(*ast.AssignStmt); ok && as.Tok == token.ADD_ASSIGN && Src(as.Lhs[0]) == "outputAmount" {
+						added = true
+					}
+					if is, ok := st.(*ast.IfStmt); ok && strings.Contains(Src(is.Cond), "MaxSatoshi") {
+						capc, capOK = LeanExpr(is.Cond, map[string]string{"prop.Data.Amount": "amt", "outputAmount": "total", "btcutil.MaxSatoshi": "2100000000000000"})
+						capAfter = added
+						o.Facts["cap_go"] = Src(is.Cond)
+					}
+				}
+				return false
+			})
+		}
+		o.Facts["cap_translated"] = capOK
+		o.Lean.WriteString("/-- the test of `outputs` that refuses amounts beyond the supply (amt = this proposal's amount, total = running total) -/\n")
+		o.Lean.WriteString("def supplyCap (amt total : Nat) : Bool := " + capc + "\n")
+		if capAfter {
+			o.Lean.WriteString("def supplyCapAfterAddition : Bool := true\n\n")
+		} else {
+			o.Lean.WriteString("def supplyCapAfterAddition : Bool := false\n\n")
+		}
+		// message handler: the amount is tested to fit 64 bits before .Uint64()
+		mh := o.ParseFile("chains/btc/executor/message-handler.go")
+		fits := false
+		if fd := FindFunc(mh, "", "ERC20MessageHandler"); fd != nil {
+			Walk(fd.Body, func(n ast.Node) bool {
+				if is, ok := n.(*ast.IfStmt); ok && Src(is.Cond) == "!bigAmount.IsUint64()" && len(is.Body.List) == 1 {
+					if _, ok := is.Body.List[0].(*ast.ReturnStmt); ok {
+						fits = true
+					}
+				}
+				return true
+			})
+		}
+		o.Facts["handler_checks_uint64"] = fits
+		if fits {
+			o.Lean.WriteString("def handlerChecksUint64 : Bool := true\n\n")
+		} else {
+			o.Lean.WriteString("def handlerChecksUint64 : Bool := false\n\n")
+		}
+
 		// mempool comparator: fields of utxos[i] mentioned inside the sort.Slice closure, in order of first appearance
 		m := o.ParseFile("chains/btc/mempool/mempool.go")
 		keys := []string{}
